@@ -19,6 +19,7 @@ package message
 import (
 	"context"
 	"fmt"
+	"runtime"
 	"sort"
 	"sync"
 	"sync/atomic"
@@ -374,6 +375,11 @@ func runStore(t *testing.T, r *simkit.Run) {
 		defer w.closePrimary()
 		w.run()
 	})
+	// Pebble keeps sync.Pools of objects that carry channels and WaitGroups
+	// (sstable write tasks, batches). An object created in this run's bubble
+	// must never reach the next run's bubble: two collections empty every pool.
+	runtime.GC()
+	runtime.GC()
 	w.finish()
 }
 
